@@ -169,7 +169,7 @@ func quoteAll(ss []string) []string {
 // ---------------------------------------------------------------- domain quote
 
 type quoteCase struct {
-	Kind string   `json:"kind"`           // quote | roundtrip | words | parse | splitvar | get
+	Kind string   `json:"kind"`           // quote | roundtrip | words | parse | splitvar | get | inert
 	Hex  []string `json:"hex"`            // the byte strings (hex)
 	Dash int      `json:"dash,omitempty"` // get: position of "--" (-1 = none)
 	Text []string `json:"text,omitempty"` // the same strings, Go-quoted, for the reader
@@ -262,6 +262,22 @@ func evalQuote(d quoteCase) (cl string, il string) {
 			parts = append(parts, hx(k), hx(s))
 		}
 		return cl, strings.Join(parts, " ")
+	case "inert":
+		cl = caseLine("quote.inert", hs...)
+		if strings.Contains(ss[0], "{{") || strings.Contains(ss[0], "<no value>") {
+			return cl, "special"
+		}
+		vars := ast.NewVars()
+		vars.Set("Y", ast.Var{Value: "why"})
+		cache := &export.TemplaterCache{Vars: vars}
+		res := export.TemplaterReplace(ss[0], cache)
+		if cache.Err() != nil {
+			return cl, "ERROR"
+		}
+		if res != ss[0] {
+			return cl, "CHANGED " + hx(res)
+		}
+		return cl, "inert"
 	case "get":
 		cl = caseLine("quote.get", append([]string{strconv.Itoa(d.Dash)}, hs...)...)
 		argv := append([]string{}, ss...)
@@ -456,6 +472,26 @@ func runQuote(c *Ctx) {
 			c.Distinct("w|" + line)
 		}
 	}
+	// templater.Replace is the identity on text without "{{" and without "<no value>"
+	nin := c.Pick(6000, 80000)
+	for i := 0; i < nin; i++ {
+		s := c.qBytes(30, rawTmpl)
+		if c.Rng.Intn(6) == 0 {
+			ins := []string{"<no value>", "<no  value>", "<No value>", "<no value", "no value>", "{ {", "{", "}}", "{%", "<no value><no value>", "{{"}
+			k := c.Rng.Intn(len(s) + 1)
+			s = s[:k] + ins[c.Rng.Intn(len(ins))] + s[k:]
+		}
+		if c.Rng.Intn(3) == 0 { // the text as it is forwarded: quoted
+			if q, err := syntax.Quote(s, syntax.LangBash); err == nil {
+				s = q
+			}
+		}
+		il := emit(mkQuoteCase("inert", []string{s}, 0))
+		c.Hit("inert:" + strings.SplitN(il, " ", 2)[0])
+		if il == "inert" && len(s) > 0 {
+			c.Distinct("t|" + s)
+		}
+	}
 	np := c.Pick(6000, 80000)
 	for i := 0; i < np; i++ {
 		k := c.Rng.Intn(6)
@@ -526,11 +562,13 @@ type cliCase struct {
 	// init only
 	Flag string   `json:"flag,omitempty"` // --init | -i
 	Tree []string `json:"tree,omitempty"` // pre-existing entries relative to the tree root, "d:" / "f:" prefix; the working directory is w/
-	// filled in by the harness (not an input): what the recorder would see if the forwarded
-	// text were passed through the template engine once more (known finding, DESIGN §8 row 26)
-	HasTemplate bool     `json:"has_template_action,omitempty"`
-	TmplArgv    []string `json:"argv_if_templated,omitempty"`
-	TmplFail    bool     `json:"fails_if_templated,omitempty"`
+	// filled in by the harness (not inputs): the monitors of the two open findings.  When
+	// the forwarded text contains a template action ("template") or the literal <no value>
+	// ("novalue"), what the helper receives if that text is passed through the real
+	// templater.Replace (variable pass) and the command-level <no value> deletion.
+	Reinterp string   `json:"reinterpreted,omitempty"`
+	AsIfArgv []string `json:"argv_as_if,omitempty"`
+	AsIfFail bool     `json:"fails_as_if,omitempty"`
 }
 
 type cliWorker struct {
@@ -641,17 +679,18 @@ func evalCli(d *cliCase) (cl string, il string) {
 	os.Remove(w.outFile)
 	rc, out := runCLI(w.dir, filepath.Join(w.dir, "home"), withDash(ss, d.Dash))
 	rec, ok := readRecorded(w.outFile)
-	// monitor of the open finding (DESIGN §8 row 26): the outcome is exactly what one more
-	// pass of the forwarded text through the template engine gives → tagged `templated`
+	// monitors of the open findings: the outcome is exactly what the template passes give
+	// → tagged `templated` (DESIGN §8 row 26) resp. `novalue` (<no value> deleted)
 	tag := func(il string) string {
-		if !d.HasTemplate {
+		t := map[string]string{"template": " templated", "novalue": " novalue"}[d.Reinterp]
+		if t == "" {
 			return il
 		}
-		if d.TmplFail && strings.HasPrefix(il, "fail ") {
-			return il + " templated"
+		if d.AsIfFail && strings.HasPrefix(il, "fail ") {
+			return il + t
 		}
-		if !d.TmplFail && il == strings.Join(append([]string{"argv"}, d.TmplArgv...), " ") {
-			return il + " templated"
+		if !d.AsIfFail && il == strings.Join(append([]string{"argv"}, d.AsIfArgv...), " ") {
+			return il + t
 		}
 		return il
 	}
@@ -706,10 +745,10 @@ func firstLine(s string) string {
 	return s
 }
 
-// cliTemplated computes, for the monitor of the open finding, what the helper would
-// receive if the forwarded text went through the template engine once more.
+// cliTemplated computes, for the monitors of the open findings, what the helper would
+// receive if the forwarded text went through the template passes of the real code.
 func cliTemplated(d *cliCase, ss []string) {
-	d.HasTemplate, d.TmplArgv, d.TmplFail = false, nil, false
+	d.Reinterp, d.AsIfArgv, d.AsIfFail = "", nil, false
 	var text string
 	switch d.Kind {
 	case "fwd":
@@ -737,35 +776,40 @@ func cliTemplated(d *cliCase, ss []string) {
 		}
 		text, _ = v.Value.(string)
 	}
-	if !strings.Contains(text, "{{") {
+	switch {
+	case strings.Contains(text, "{{"):
+		d.Reinterp = "template"
+	case strings.Contains(text, "<no value>"):
+		d.Reinterp = "novalue"
+	default:
 		return
 	}
-	d.HasTemplate = true
 	vars := ast.NewVars()
 	vars.Set("Y", ast.Var{Value: cliTaskfileVarY})
 	cache := &export.TemplaterCache{Vars: vars}
-	res := export.TemplaterReplace(text, cache)
+	res := export.TemplaterReplace(text, cache) // variable pass (Compiler.getVariables)
 	if cache.Err() != nil {
-		d.TmplFail = true
+		d.AsIfFail = true
 		return
 	}
 	line := res
 	if d.Kind == "var" {
 		q, err := syntax.Quote(res, syntax.LangBash)
 		if err != nil {
-			d.TmplFail = true
+			d.AsIfFail = true
 			return
 		}
 		line = q + " " + q
 	}
+	line = strings.ReplaceAll(line, "<no value>", "") // command pass (templater.Replace of the cmd)
 	fs, err := shell.Fields(line, noEnv)
 	if err != nil {
-		d.TmplFail = true
+		d.AsIfFail = true
 		return
 	}
-	d.TmplArgv = []string{}
+	d.AsIfArgv = []string{}
 	for _, f := range fs {
-		d.TmplArgv = append(d.TmplArgv, hx(f))
+		d.AsIfArgv = append(d.AsIfArgv, hx(f))
 	}
 }
 
@@ -942,7 +986,9 @@ func runCliArgs(c *Ctx) {
 	add("var", []string{"var", "X=it's \"$HOME\" `id` \\ * ~ #"}, -1)
 	add("var", []string{"var", "X=1", "X=\x01\xfe'"}, -1)
 	add("var", []string{"var", "X=v", "ignored"}, 2)
-	nf := c.Pick(260, 2600)
+	add("var", []string{"var", "X=a<no value>b"}, -1)
+	add("fwd", []string{"fwd", "{{.Y}}", "it's"}, 1)
+	nf := c.Pick(500, 4000)
 	for i := 0; i < nf; i++ {
 		k := c.Rng.Intn(6)
 		argv := []string{"fwd"}
@@ -956,7 +1002,7 @@ func runCliArgs(c *Ctx) {
 		add("fwd", argv, dash)
 		c.Hit(fmt.Sprintf("fwd:%d-args", k))
 	}
-	nv := c.Pick(200, 2000)
+	nv := c.Pick(400, 3200)
 	for i := 0; i < nv; i++ {
 		argv := []string{"var", "X=" + c.qBytes(24, noTmpl)}
 		switch c.Rng.Intn(6) {
@@ -970,7 +1016,7 @@ func runCliArgs(c *Ctx) {
 		c.Hit("var")
 	}
 	// template stream (known finding: forwarded text is evaluated as a template)
-	nt := c.Pick(24, 240)
+	nt := c.Pick(40, 400)
 	for i := 0; i < nt; i++ {
 		if c.Rng.Intn(2) == 0 {
 			add("fwd", []string{"fwd", c.qBytes(10, withTmpl), "z"}, 1)
@@ -979,7 +1025,20 @@ func runCliArgs(c *Ctx) {
 		}
 		c.Hit("template-stream")
 	}
-	ni := c.Pick(150, 1500)
+	// <no value> stream (known finding: the literal is deleted from every rendered text)
+	nn := c.Pick(12, 120)
+	for i := 0; i < nn; i++ {
+		v := c.qBytes(8, noTmpl)
+		k := c.Rng.Intn(len(v) + 1)
+		v = v[:k] + "<no value>" + v[k:]
+		if c.Rng.Intn(2) == 0 {
+			add("fwd", []string{"fwd", v, "z"}, 1)
+		} else {
+			add("var", []string{"var", "X=" + v}, -1)
+		}
+		c.Hit("novalue-stream")
+	}
+	ni := c.Pick(300, 2400)
 	for i := 0; i < ni; i++ {
 		cases = append(cases, c.genInit())
 	}
